@@ -140,7 +140,7 @@ PROPS = {
     ),
     "C10": dict(
         level="exploration",
-        rule="rapid cases: a generated tree (plain subscribers of the root, of clones and of filtered clones, filtered subscriptions, monitors), a generated subset of plain subscribers stalled (never reading) and of monitors with a handler blocked on a harness channel, others slow; a stream of 0..4xEventBufsiz events in bursts of <= EventBufsiz/4 paced by double-marker barriers over the healthy nodes only (each barrier also checks every healthy cache and strict mirror); then the stalled consumers are released. Oracles: barriers complete; the controller's witness holds exactly the published sequence; healthy siblings agree with their publisher's witness; each released consumer delivers at least min(sent-to-it, EventBufsiz) events and what it delivers is an in-order subsequence of what was sent to it. Non-trivial = >= 1 stalled consumer that was sent more than EventBufsiz events, with a healthy sibling under the same publisher; distinct = hash of the history.",
+        rule="rapid cases: a generated tree (plain subscribers of the root, of clones and of filtered clones, filtered subscriptions, monitors), a generated subset of plain subscribers stalled (never reading) and of monitors with a handler blocked on a harness channel, others slow; a stream of 0..4xEventBufsiz events in bursts of <= EventBufsiz/4 paced by double-marker barriers over the healthy nodes only (each barrier also checks every healthy cache and strict mirror); then the stalled consumers are released. Oracles: barriers complete; the controller's witness holds exactly the published sequence; healthy siblings agree with their publisher's witness; each released consumer delivers at least min(sent-to-it, EventBufsiz) events and what it delivers is an in-order subsequence of what was sent to it. Further generated variations: partial resume of an overflowed consumer, resume while events keep coming, a stalled subscriber closed in the middle of a burst, a stalled filtered subscription refiltered, a structural check at quiescent points that no library goroutine is parked in a hand-over, now and then a stream of 5-150 buffers, and one stalled subscriber that meets the controller's shutdown with its buffer unread (Done closes; the buffered events come before the closed channel). Non-trivial = >= 1 stalled consumer that was sent more than EventBufsiz events, with a healthy sibling under the same publisher; distinct = hash of the history.",
         assumptions=["no upper bound on what a stalled consumer holds and no prefix-ness is asserted (the statement promises neither)", "typed subscriptions as stalled consumers are covered by the C20 differential, not here"],
         quick=[J("TestC10_SlowConsumers", checks=60, shards=12, procs=[2, 4, 8, 16])],
         thorough=[J("TestC10_SlowConsumers", checks=1500, shards=16, procs=[1, 2, 4, 8, 16], timeout=2400)],
